@@ -367,6 +367,11 @@ static void family_struct(std::vector<hm::Scenario>& out, unsigned oracles, cons
     P("I3_8_1_8", {{mk(REMOVE, "09")}, {mk(REMOVE, "17")}}, true);
     P("I3_8_1_8", {{mk(REMOVE, "09"), mk(PUT, "09", 2)}, {mk(PUT, "095", 2)}}, false);
     P("I3_8_1_8", {{mk(REMOVE, "09")}, {mk(PUT, "085", 2)}, {mk(REMOVE, "17")}}, false);
+    // 8 | 15 | 1 | 8: the node that is unlinked has a FULL previous sibling that splits at the same time, or that is emptied
+    P("I4_8_15_1_8", {{mk(REMOVE, "17")}, {mk(PUT, "098", 2)}}, true);
+    P("I4_8_15_1_8", {{mk(REMOVE, "17")}, {mk(PUT, "175", 2)}}, true);
+    P("I4_8_15_1_8", {{mk(REMOVE, "17")}, {mk(REMOVE, "25")}}, false);
+    P("I4_8_15_1_8", {{mk(REMOVE, "17")}, {mk(PUT, "098", 2)}, {mk(REMOVE, "32")}}, false);
     // I2_1_8 / I2_8_1: removing the single key collapses the interior root (promotion) while the sibling changes
     P("I2_1_8", {{mk(REMOVE, "08")}, {mk(PUT, "085", 2)}}, true);
     P("I2_1_8", {{mk(REMOVE, "08")}, {mk(REMOVE, "09")}}, true);
@@ -425,7 +430,15 @@ static void family_struct(std::vector<hm::Scenario>& out, unsigned oracles, cons
             std::string rk = progs[0][0].key;
             auto pg = progs;
             pg.push_back({mk(GET, rk)});
-            add(out, fam, *sh, pg, oracles, p.quick && progs.size() == 2 && progs[0].size() == 1, 2, 2);
+            // three threads at bound 2 cost 1-2 M schedules when an operation splits a node: keep those for the thorough tier
+            bool splits = false;
+            for (auto& pr : progs) {
+                for (auto& o : pr) {
+                    if (o.kind == PUT && (sh->name == "B15" || sh->name == "L1full" || sh->name == "I2_8_15" || sh->name == "IFULL" || sh->name == "I4_8_15_1_8")) splits = true;
+                }
+            }
+            bool few_ops = progs.size() == 2 && progs[0].size() == 1 && progs[1].size() == 1;
+            add(out, fam, *sh, pg, oracles, p.quick && few_ops && (!splits || sh->name == "I4_8_15_1_8"), 2, 2);
             auto ps = progs;
             ps.push_back({mkscan("", scan_endpoint::INF, "", scan_endpoint::INF, 0, false, false)});
             add(out, fam, *sh, ps, oracles, false, 2, 2);
